@@ -241,6 +241,72 @@ def fitted_task(c):
     return [dict(rec=rec, key=key, nontrivial=big > 0, case=c, extreme_regions=big, info=info)]
 
 
+def model_history_task(c):
+    """construct -> sample -> modify the model object in place -> sample again.  The second sample
+    must follow the model AS IT IS NOW (PIT through the current objects, declared structure) and be
+    bit-for-bit the sample of a freshly constructed model with the same current parameters.
+    how: "replace-entry"   model.distributions[k] = another distribution object (same or other family;
+                           k = 0: a plain distribution, k > 0: a ConditionalDistribution)
+         "set-parameters"  attribute assignment on the first distribution + new parameters dict of every
+                           dependence function (models.change_parameters)"""
+    import copy
+    vc = import_virocon()
+    out = []
+    np.random.seed((c["seed"] + 29) % (2**32 - 1))
+    desc_a = M.describe(np.random.default_rng(c["seed"]), c["n_dim"], c["cond"], c["families"], c["sh"])
+    model = M.from_description(vc, desc_a)
+    n = c["n"]
+
+    def judge_sample(mdl, desc, x):
+        rec = dict(kind="ks", exc="", n=n, overall=[], given=[], indep=[], extreme=[], dups=[], finite=True, fresh=True)
+        rec["finite"] = bool(np.all(np.isfinite(x))) and x.shape == (n, c["n_dim"])
+        if rec["finite"]:
+            u = pit_columns(mdl, desc, x)
+            for i in range(c["n_dim"]):
+                rec["overall"].append([int(len(u)), d5(ks_uniform(u[:, i]))])
+                if desc["cond"][i] is not None:
+                    rec["given"].extend(binned(u[:, i], x[:, desc["cond"][i]]))
+                for k in range(i):
+                    rec["indep"].extend(binned(u[:, i], u[:, k]))
+        return rec
+    try:
+        with warnings.catch_warnings():
+            warnings.simplefilter("ignore")
+            x1 = np.asarray(model.draw_sample(n, random_state=rs_of(c["rs"], c["seed"] + 1)), dtype=float)
+            out.append(dict(rec=judge_sample(model, desc_a, x1), key=f"model-history first-sample {model_key(c)}",
+                            nontrivial=True, case=c))
+            if c["how"] == "replace-entry":
+                k = c["entry"]
+                desc_b = M.describe(np.random.default_rng(c["seed"] + 5), c["n_dim"], c["cond"], c["families_b"], c["sh"])
+                donor = M.from_description(vc, desc_b)
+                model.distributions[k] = donor.distributions[k]       # the public list, in place
+                desc_now = copy.deepcopy(desc_a)
+                desc_now["dims"][k] = copy.deepcopy(desc_b["dims"][k])
+                desc_now["families"][k] = desc_b["families"][k]
+                desc_now["shapes"][k] = desc_b["shapes"][k]
+            else:
+                M.change_parameters(model)
+                desc_now = M.change_description(desc_a)
+            x2 = np.asarray(model.draw_sample(n, random_state=rs_of(c["rs"], c["seed"] + 3)), dtype=float)
+            rec = judge_sample(model, desc_now, x2)
+            fresh = M.from_description(vc, desc_now)
+            x3 = np.asarray(fresh.draw_sample(n, random_state=rs_of(c["rs"], c["seed"] + 3)), dtype=float)
+            if c["rs"] != "none":
+                rec["fresh"] = bool(x2.shape == x3.shape and np.array_equal(x2, x3))
+            # non-trivial: under the model as it was constructed the new sample would be rejected
+            old = M.from_description(vc, desc_a)
+            uo = pit_columns(old, desc_a, x2) if rec["finite"] else None
+            moved = uo is not None and max(d5(ks_uniform(uo[:, i])) for i in range(c["n_dim"])) > 3 * 1190
+    except Exception as e:  # noqa
+        rec = dict(kind="ks", exc=f"{type(e).__name__}: {e}"[:200], n=n, overall=[], given=[], indep=[], extreme=[],
+                   dups=[], finite=True, fresh=True)
+        moved = False
+    what = c["how"] + (f"[{c['entry']}]->{c['families_b'][c['entry']]}" if c["how"] == "replace-entry" else "")
+    out.append(dict(rec=rec, key=f"model-history sample-after-{what} random_state={c['rs']} {model_key(c)}",
+                    nontrivial=bool(moved), case=c, modelhist=True))
+    return out
+
+
 def refit_history_task(c):
     """one distribution OBJECT: draw_sample -> change it (fit with one of the methods the family
     supports, or assign parameters) -> draw_sample again.  The second sample must follow the cdf of
@@ -381,7 +447,7 @@ def hist_task(c):
 
 def run_task(c):
     return {"ks": ks_task, "shape": shape_task, "hist": hist_task, "fitted": fitted_task,
-            "refit_history": refit_history_task}[c["task"]](c)
+            "refit_history": refit_history_task, "model_history": model_history_task}[c["task"]](c)
 
 
 # ---- case selection ------------------------------------------------------------------------
@@ -460,6 +526,22 @@ def make_tasks(ctx, cfgs, hists):
         tasks.append(dict(task="fitted", source="dataset-omae-wlsq", n_dim=2, n=ctx.pick(200_000, 1_000_000), rs="int",
                           seed=ctx.seed + 6, presample=pre))
     tasks.append(dict(task="fitted", source="dataset", n_dim=2, n=200_000, rs="generator", seed=ctx.seed + 8, presample=True))
+    # histories on one MODEL object: construct -> sample -> modify in place -> sample
+    hcfg = [c_ for c_ in by_n[2] if c_["cond"][1] == 0 and c_["sh"][1] != 1] + \
+           [c_ for c_ in by_n[3] if c_["cond"][1] == 0 and c_["cond"][2] in (0, 1) and 1 not in c_["sh"][1:]]
+    for j in range(ctx.pick(18, 90)):
+        cfg = hcfg[(j * 7 + ctx.seed) % len(hcfg)]
+        b = base(cfg)
+        k += 1
+        how = ["replace-entry", "replace-entry", "set-parameters"][j % 3]
+        t = dict(b, task="model_history", how=how, rs=["int", "generator", "int0", "none"][k % 4], n=100_000)
+        if how == "replace-entry":
+            t["entry"] = [0, cfg["n_dim"] - 1, 0, 1][(j // 3) % 4]
+            fb = list(b["families"])
+            if (j // 3) % 2 == 0:          # another family; otherwise the same family with other parameters
+                fb[t["entry"]] = M.FAMILIES[(M.FAMILIES.index(fb[t["entry"]]) + 1 + j % 5) % len(M.FAMILIES)]
+            t["families_b"] = fb
+        tasks.append(t)
     # histories on one distribution object: sample -> fit (every method the family supports) / assign -> sample
     hows = {fam: ["mle", "assign"] for fam in M.FAMILIES}
     hows["expweibull"] = ["mle", "lsq", "wlsq:linear", "wlsq:quadratic", "wlsq:cubic", "assign"]
@@ -582,6 +664,9 @@ def run(ctx):
     ctx.model_check("Rosenblatt", "MC_Rosenblatt_c07_wrongcol.cfg", expect_violation="InverseRosenblatt")
     ctx.model_check("Rosenblatt", "MC_Rosenblatt_c07_clipgiven.cfg", expect_violation="InverseRosenblatt")
     ctx.model_check("Rosenblatt", "MC_Rosenblatt_c07_constshared.cfg", expect_violation="InverseRosenblatt")
+    # the model may be modified between construction and sampling; sampling reads the current state
+    ctx.model_check("Rosenblatt", "MC_Rosenblatt_c07_replace.cfg", must_cover=("Replace", "SampleStep"))
+    ctx.model_check("Rosenblatt", "MC_Rosenblatt_c07_frozenplan.cfg", expect_violation="InverseRosenblatt")
     ctx.model_check("RngStreams", ctx.pick("MC_RngStreams_quick.cfg", "MC_RngStreams_thorough.cfg"),
                     must_cover=("Draw",))
     ctx.model_check("RngStreams", "MC_RngStreams_noadvance.cfg", expect_violation="GeneratorAdvances")
@@ -602,6 +687,10 @@ def run(ctx):
     ctx.notes["models_with_scalar_or_fixed_constant_parameters"] = nconst
     if not ctx.violations and nconst < 20:
         raise Machinery(f"vacuous: only {nconst} models with scalar / fixed constant conditional parameters")
+    nmh = sum(1 for o in meta if o.get("modelhist") and o["nontrivial"])
+    ctx.notes["model_histories_whose_modification_moved_the_distribution"] = nmh
+    if not ctx.violations and nmh < 8:
+        raise Machinery(f"vacuous: only {nmh} construct -> sample -> modify -> sample histories changed the model")
     nrefit = sum(1 for o in meta if o.get("refit") and o["nontrivial"])
     ctx.notes["samples_after_fit_or_assignment_with_moved_parameters"] = nrefit
     if not ctx.violations and nrefit < 8:
